@@ -81,6 +81,32 @@ CHECKS = {
         text="refs_eq_members for all sequences of member writes / re-references; flow_facts: every *_get_state writes the header fields, get_state adds the id, root carries protocol+version, member names are flat, _save precedes any sink write and only fills its buffer; archives of zoo and generated objects are checked for zip validity, schema fields, refs<->members, flat names, and equality across 4 sinks x 7 compression settings.",
         note="Trusted: Lean kernel; flow-fact AST patterns; zipfile codec as a contract.",
         design="6/C12"),
+    "C16": dict(
+        technique="Lean 4 proof (statement skeleton of skops.cli._update regenerated from the source by a translator and interpreted over a file-system model: decision table, rewrite frame, no residue, crash safety for every prefix of the operation trace and every chunking of the writes) + traced and killed runs of the real CLI",
+        text="decision_untouched / both_flags_error / rewritten / input_untouched / crash_safe quantify over every configuration (paths, flags, protocols), file system state and crash point of the model; skeleton_inner/skeleton_main check by rfl that the program the lemmas are about is the translation of the current source; the real CLI is run in forked children over protocol x output form x inplace x pre-existing destination x TMPDIR file system, its audit-hook operation trace, outcome and final file set are compared with the model, and it is killed at every file operation and in the middle of every write.",
+        note="PARTIAL with respect to 'dies at any moment': proved for the operation model under the POSIX rename contract; power-loss durability, path components ./.. and symlinks, permissions and full disks are outside the model (../ paths are exercised on the implementation). Trusted: Lean kernel; translate/skeleton.py (unknown statements become `.unknown`, which no theorem survives); fscheck tracer; comparator. The defects found here were repaired (fixed:b25e65d).",
+        design="6/C16"),
+    "C17": dict(
+        technique="Lean 4 proof (skeleton of skops.cli._convert from the translator: no file operation at all when the object cannot be persisted; output path, frame and warning condition on success) + runs of the real CLI compared with the model and with the unpickled object",
+        text="failed_convert_untouched / converted for every configuration and file-system state, with the dump outcome taken from the value model (encode); skeletons tied by rfl; real `skops convert` over zoo, user-class, unpersistable and generated objects x output option x verbosity x pre-existing output x 7 input-name shapes: loaded archive equals pickle.load(input), input bytes, residue, warning text equals get_untrusted_types, op trace / log levels / outcome equal the model's.",
+        note="Trusted: Lean kernel; translate/skeleton.py; value model (C04/C05) for 'loads to an equal object'; comparator; pickle of the harness's own objects as reference.",
+        design="6/C17"),
+    "C18": dict(
+        technique="Lean 4 proof (skeletons of dump/dumps from the translator: get_state failing => the world is returned unchanged, for every sink; an unsupported element anywhere inside makes get_state fail, by mutual induction over the value grammar) + flow facts + substitution runs on the real dump",
+        text="failed_dump_untouched / unsupported_inside_untouched / failed_dumps_nothing / encode_none for every value, configuration and world; flow_facts (by decide) re-establish that _save precedes every open/write and writes only its own buffer; generated structures with one raising element substituted at sampled (thorough: all) positions are dumped to existing/new paths (str, Path), positioned file objects, BytesIO and dumps in forked children: tree before/after, file-object position, write-type audit events.",
+        note="Trusted: Lean kernel; translators (skeleton, flow); value model tied by correspondence (refusal compared on the substituted structures).",
+        design="6/C18"),
+    "C19": dict(
+        technique="Lean 4 proof (PARTIAL: the io model is total on every JSON value; the audit walk's in-progress guard terminates on every finite graph; explicit exponential cost family) + schema-level outcome correspondence + sandboxed mutation runs with wall-clock limit",
+        text="load_total / cycle_guard_terminates / audit_exponential; the model's verdict is compared with the implementation on the adversarial archive grammar; byte-, member- and schema-level mutants (single and stacked) of zoo and grammar archives run get_untrusted_types, visualize and loads in forked workers: exit status, exception class, 20 s limit, cwd/environ/sys.path/umask/global RNG/files before vs after; the visit count of the real audit on the evil(n) family is compared with the model (equal => the known finding is printed).",
+        note="PARTIAL: byte-level zip corruption and native parsers (np.load, load_npz, Cython __setstate__) cannot be expressed in the Lean model and are only sampled. Known finding: exponential audit on nested shared ids ('terminate promptly' is false for that family). Trusted: Lean kernel; worker sandbox; mutators.",
+        design="6/C19"),
+    "C20": dict(
+        technique="Lean 4 proof (PARTIAL: frame model — steps that write only their own object's state are history- and schedule-independent, instantiated with the card and io models; negation witness for a memoising step) + frame facts regenerated from the source by a syntactic translator + fresh-process vs sequenced vs threaded runs",
+        text="history_independent / first_or_later / schedule_independent (Conc/Frame.lean) for every history and schedule; cards_independent and io_call_history_free instantiate them with Card.step and the io model; frame_facts_hold (by decide) on facts re-derived from every non-test module (no global statements, no writes to module-level containers or class attributes in functions, no mutable defaults, no process-state writes, contexts per call, no function-level caches); every call is executed once as the only call of a fresh interpreter and compared with shuffled in-process sequences and 8-thread runs at a 1 microsecond switch interval; module-state digest before/after.",
+        note="PARTIAL: real CPython interleavings are sampled, not enumerated; the theorem is conditional on the frame hypothesis, which is established syntactically and sampled dynamically. Trusted: Lean kernel; translate/frame.py; comparator; sklearn's HTML id counter is normalised.",
+        design="6/C20"),
+
 }
 
 PENDING_REASON = "not claimed yet: the model/check for this property is still being built in this round (see DESIGN.md section 11); it is not 'not applicable' in principle"
